@@ -138,3 +138,10 @@ package language
 //@   requires val != nil
 //@   ensures[C14] len(val.B) != 0 ==> result1 == nil && typeis(result0, "*Binary") && fresh(result0.(*Binary)) && fresh(arr(result0.(*Binary).Value)) && len(result0.(*Binary).Value) == len(val.B)
 //@   ensures[C10] len(val.B) != 0 ==> forall j int :: {result0.(*Binary).Value[j]} 0 <= j && j < len(val.B) ==> result0.(*Binary).Value[j] == val.B[j]
+
+// ---- closed-world function values ---------------------------------------------------------------------
+// The parser's parse-function tables and the built-in function table are filled by this package only: a call through a
+// value of one of these signatures reaches one of the functions of that signature whose address is taken in the module.
+//@ closedfunc language.(*Parser).parseIdentifier
+//@ closedfunc language.(*Parser).parseInfixExpression
+//@ closedfunc language.attributeExists
